@@ -73,7 +73,20 @@ def check_C03(ctx):
     rng = random.Random(ctx.seed * 1000 + 3)
     bench = Bench(ctx)
     scens = small_scope(rng, sizes(ctx, 40, 400)) + [Scen(gen_tree(rng, max_tests=14)) for _ in range(sizes(ctx, 60, 1500))]
-    reporters = ["text", "quiet", "cute"]
+    # one test run by name (run_single_test): the same accounting, for every kind of test at every depth
+    singles = []
+    for sc in scens[:sizes(ctx, 60, 600)]:
+        tests = [t for _, t in sc.root.tests()]
+        names = [t.name for t in tests]
+        if not tests or len(set(names)) != len(names):
+            continue
+        t = rng.choice(tests)
+        if any(a[0] in "KEUZ" for a in t.acts()):
+            continue      # an abnormal end in the runner's own process ends the run: that is C01's
+        c = sc.copy(); c.mode = "single:" + t.name; c.kill = None
+        singles.append(c)
+    scens += singles
+    reporters = ["text", "quiet", "cute", "libxml"]
     dis, orf = explore(ctx, bench, scens, reporters, oracle_C03, "C03")
     report(ctx, bench, dis, orf, oracle_C03, "C03")
     ctx.coverage["samples"] = sample_of(scens)
